@@ -156,7 +156,9 @@ def _intcoord_case(rng):
     method='bounds': the half-step edges are not integers"""
     n = rng.randint(3, 6)
     sp = rng.choice([1, 3, 5, 7])
-    b = rng.randint(-20, 20)
+    # signed or unsigned storage (pressure levels as uint16): differences of unsigned integers must not wrap around
+    cdt = rng.choice(['i', 'h', 'H', 'I'])
+    b = rng.randint(0, 20) if cdt in 'HI' else rng.randint(-20, 20)
     c = [Fraction(b + sp * i) for i in range(n)]
     if rng.random() < 0.4:
         c = c[::-1]
@@ -172,8 +174,9 @@ def _intcoord_case(rng):
             vals.append(rng.choice([lo - Fraction(rng.randint(1, 9), 4), hi + Fraction(rng.randint(1, 9), 4)]))
     # not exactly on an edge (a tie between two cells)
     vals = [v for v in vals if (v - lo) % sp != 0 or v in (lo, hi)] or [c[0]]
-    return dict(stream='margin', method='bounds', clean=rng.choice(['mask', 'none']), refhour=None, prior=False,
-                bmode=rng.choice(['ignore', 'warn', 'error']), left='none', right='none', cdtype=rng.choice(['i', 'h']), tz=None,
+    return dict(stream='margin', method=rng.choice(['bounds', 'bounds', 'nearest']) if cdt in 'HI' else 'bounds',
+                clean=rng.choice(['mask', 'none']), refhour=None, prior=False,
+                bmode=rng.choice(['ignore', 'warn', 'error']), left='none', right='none', cdtype=cdt, tz=None,
                 tunit='hours', coords=[lib.show_rat(x) for x in c], edges='none', vals=[lib.show_rat(x) for x in vals], nanq=False)
 
 
